@@ -1,0 +1,29 @@
+//go:build verif
+
+// Contracts for the verification machinery in /verif (comment-only; no declarations).
+//
+// C08 (tier B): relay reservation vouchers are signed records with their own constant domain and payload type;
+// decoding validates both peer IDs through peer.IDFromBytes (mh.Cast) and keeps their bytes.
+
+package proto
+
+//@ func (rv *ReservationVoucher) Domain
+//@ prop C08
+//@ ensures result == RecordDomain && result == "libp2p-relay-rsvp"
+//@ modifies nothing
+
+//@ func (rv *ReservationVoucher) Codec
+//@ prop C08
+//@ ensures result == RecordCodec
+//@ modifies nothing
+
+//@ func (rv *ReservationVoucher) UnmarshalRecord
+//@ inline GetRelay, GetPeer, GetExpiration
+//@ prop C08
+//@ ensures result == nil ==> called(Unmarshal, 0) && arg(Unmarshal, 0, 0) == blob && ret(Unmarshal, 0, 0) == nil
+//@ ensures result == nil ==> called(IDFromBytes, 0) && ret(IDFromBytes, 0, 1) == nil && arg(IDFromBytes, 0, 0) == ret(GetRelay, 0, 0) &&
+//@         rv.Relay == peer.ID(string(ret(GetRelay, 0, 0)))
+//@ ensures result == nil ==> called(IDFromBytes, 1) && ret(IDFromBytes, 1, 1) == nil && arg(IDFromBytes, 1, 0) == ret(GetPeer, 0, 0) &&
+//@         rv.Peer == peer.ID(string(ret(GetPeer, 0, 0)))
+//@ ensures result == nil ==> called(Unix, 0) && arg(Unix, 0, 0) == ret(GetExpiration, 0, 0) && arg(Unix, 0, 1) == 0 && rv.Expiration == ret(Unix, 0, 0)
+//@ modifies rv.Relay, rv.Peer, rv.Expiration
